@@ -29,7 +29,14 @@ def verify_contract(target, timeout_ms=5000, retry=True):
     c = R.CONTRACTS[target]
     res = {"target": target, "props": c.props, "mode": c.mode, "obligations": [], "status": "ok",
            "paths": 0, "file": None, "lines": None, "hash": None, "unsupported": None,
-           "explore_s": 0.0, "solve_s": 0.0, "dropped": [], "vacuity": None, "theories": list(c.theories)}
+           "explore_s": 0.0, "solve_s": 0.0, "dropped": [], "vacuity": None, "theories": list(c.theories),
+           "contract_assumptions": (["assumed clause %s of %s: %s" % (k, target, v) for k, v in c.assumes.items()]
+                                    + (["note on %s: %s" % (target, c.note)] if c.note else [])
+                                    + (["definitional clauses of %s (define otherwise unconstrained spec symbols; assumed by callers, nothing to prove): %s" % (target, ", ".join(c.definitional))] if c.definitional else [])
+                                    + (["outside the precondition of %s: %s" % (target, c.outside_pre)] if c.outside_pre else [])
+                                    + (["%s uses the separately proved contract of %s as a lemma about its function symbol (sound if that function terminates)" % (target, u) for u in c.uses])
+                                    + (["%s is a lemma stated in the sidecar (a composition of repo functions, verified like a body): %s" % (target, c.lemma[1].strip().replace("\n", " ; "))] if c.lemma else [])
+                                    + (["contract of %s is ASSUMED, not proved" % target] if c.mode == "assumed" else []))}
     try:
         mi, fnode = source.find_function(target)
         if fnode is None:
